@@ -15,6 +15,7 @@ import (
 	"github.com/cockroachdb/errors/errorspb"
 	"github.com/cockroachdb/errors/extgrpc"
 	"github.com/cockroachdb/errors/exthttp"
+	"github.com/cockroachdb/errors/join"
 	crdbstatus "github.com/cockroachdb/errors/grpc/status"
 	"github.com/cockroachdb/logtags"
 	gogostatus "github.com/gogo/status"
@@ -147,6 +148,7 @@ const (
 	MFmt
 	MUMulti
 	MUMultiReg
+	MJoinBare
 	// C17 only (never drawn by the generator: weight -1)
 	LMig
 	WMig
@@ -537,6 +539,8 @@ func init() {
 			}
 			return e
 		}})
+	def(MJoinBare, KindInfo{Name: "join.Join", Arity: Multi, Groups: GLib | GMulti, NInts: []int{4}, Weight: 3,
+		build: func(n *Node, k, _ []error) error { return join.Join(withNils(k, n.N[0])...) }})
 	def(MStdJoin, KindInfo{Name: "goerrors.Join", Arity: Multi, Groups: GStd | GMulti, NInts: []int{4}, Weight: 3,
 		build: func(n *Node, k, _ []error) error { return goerrors.Join(withNils(k, n.N[0])...) }})
 	def(MFmt, KindInfo{Slots: "U", Name: "fmt.Errorf(%w %w)", Arity: Multi, Groups: GStd | GMulti, Weight: 3,
